@@ -106,7 +106,7 @@ def _clone(v, memo):
             return memo[id(v)]
         n = SList(v.ref, v.length, v.fn, None, v.kind)
         n.transients = dict(getattr(v, 'transients', {}) or {})
-        for extra in ('slice_of', 'split_points', 'role_tag', 'index_role', 'role_strict'):
+        for extra in ('slice_of', 'split_points', 'role_tag', 'index_role', 'role_strict', 'stride_writes'):
             if extra in v.__dict__:
                 setattr(n, extra, v.__dict__[extra])
         memo[id(v)] = n
@@ -867,7 +867,8 @@ class Executor:
             if isinstance(base, SList):
                 idx = self.ev(tgt.slice, state)
                 if is_tag(idx, 'slice'):
-                    raise Unsupported('slice assignment to a list at line %d' % node.lineno)
+                    self.list_store_strided(base, idx, v, state, node.lineno)
+                    return
                 i = self.norm_index(base, idx, state, node.lineno)
                 self.frame_list(base, state, node.lineno)
                 if base.kind == 'arr' and not isinstance(v, SArr):
@@ -879,6 +880,28 @@ class Executor:
                 raise Unsupported('subscript store on %s at line %d' % (type(base).__name__, node.lineno))
         else:
             raise Unsupported('assignment target at line %d' % node.lineno)
+
+    def list_store_strided(self, base, sl, v, state, line):
+        """lst[a::s] = values  with constant a >= 0, s >= 2 (extended slice: CPython raises ValueError unless the number of values
+        equals the number of selected slots).  Slot a + k*s receives values[k]; every other slot keeps its content."""
+        _, lo, hi, step = sl
+        a, st_ = (0 if lo is None else as_conc(lo)), (None if step is None else as_conc(step))
+        if hi is not None or a is None or a < 0 or st_ is None or st_ < 2 or not isinstance(v, SList):
+            raise Unsupported('slice assignment to a list at line %d' % line)
+        self.frame_list(base, state, line)
+        n = zi(base.len_term())
+        slots = z3.If(n > a, (n - a + (st_ - 1)) / st_, z3.IntVal(0))
+        src = v.snapshot()
+        self.ctx.oblige(state, 'extended-slice-length', line, zi(src.len_term()) == slots,
+                        'attempt to assign a sequence of another size to an extended slice')
+        src.to_fn()
+        base.to_fn()
+        old, f = base.fn, src.fn
+        writes = list(base.__dict__.get('stride_writes') or [])
+        base.fn = lambda j, old=old, f=f, a=a, st_=st_: val_ite(z3.And(zi(j) >= a, (zi(j) - a) % st_ == 0), f((zi(j) - a) / st_), old(j))
+        base.stride_writes = writes + [(a, st_, src)]
+        if base.kind != src.kind:
+            base.kind = 'any'
 
     def array_setitem(self, base, tgt, v, state):
         line = tgt.lineno
@@ -1038,7 +1061,7 @@ class Executor:
                 return obj.shape
             if a == 'ndim':
                 return obj.ndim
-            if a in ('copy',):
+            if a in ('copy', 'transpose'):
                 return ('method', obj, a)
             raise Unsupported('attribute %s of an array of symbolic rank at line %d' % (a, node.lineno))
         if isinstance(obj, SArr):
